@@ -491,9 +491,12 @@ def with_warnings(fn):
     lg.addHandler(h)
     lg.setLevel(logging.WARNING)
     lg.propagate = False
+    old_disable = logging.root.manager.disable
+    logging.disable(logging.NOTSET)      # ./check silences warnings globally; the property mentions this one
     try:
         fn()
     finally:
+        logging.disable(old_disable)
         lg.removeHandler(h)
         for oh in old_handlers:
             lg.addHandler(oh)
